@@ -46,7 +46,7 @@ def gen(r, tier, i):
             'ops': ops, 'init_n': r.randint(0, 9), 'host': r.choice(['empty', 'generated']),
             'override': {'target': r.choice(['p0', 's', 'sub.q']), 'via': r.choice(['composer', 'process', 'merge', 'merge']),
                          'late': r.random() < 0.5},
-            'meta_overlap': r.random() < 0.5}
+            'meta_overlap': r.random() < 0.5, 'shared_schema': r.random() < 0.4}
 
 
 def classes():
@@ -54,7 +54,12 @@ def classes():
     from vivarium.core.composer import Composer
 
     class P(Process):
+        SCHEMA = {'S': {'n': {'_default': 1, '_emit': True}}}
+
         def ports_schema(self):
+            # (some cases: every instance hands out one class-level schema object)
+            if self.parameters.get('shared'):
+                return P.SCHEMA
             return {'S': {'n': {'_default': 1, '_emit': True}}}
 
         def calculate_timestep(self, states):
@@ -71,12 +76,12 @@ def classes():
             return {'S': {'m': states['S']['n'] * 3}}
 
     class C(Composer):
-        defaults = {'k': 2, 'nest': True, 'deriver': False, 'tag': ''}
+        defaults = {'k': 2, 'nest': True, 'deriver': False, 'tag': '', 'shared': False}
 
         def generate_processes(self, config):
-            d = {'p%d' % i: P({'inc': i + 1, 'ts': 0.5 * (i + 1)}) for i in range(config['k'])}
+            d = {'p%d' % i: P({'inc': i + 1, 'ts': 0.5 * (i + 1), 'shared': config['shared']}) for i in range(config['k'])}
             if config['nest']:
-                d['sub'] = {'q': P({'inc': 7})}
+                d['sub'] = {'q': P({'inc': 7, 'shared': config['shared']})}
             if config['deriver']:
                 d['drv'] = St()
             return d
@@ -155,7 +160,7 @@ def run(spec):
     from vivarium.core.composer import Composite, MetaComposer
     V = Viol()
     P, St, C = classes()
-    cfg = {'k': spec['k'], 'nest': spec['nest'], 'deriver': spec['deriver']}
+    cfg = {'k': spec['k'], 'nest': spec['nest'], 'deriver': spec['deriver'], 'shared': bool(spec.get('shared_schema'))}
     path = tuple(spec['path'])
     stats = {}
     try:
@@ -323,7 +328,7 @@ def override_case(V, spec, P, St, C, cfg):
         node = comp['steps'] if target == 's' else comp['processes']
         for k in tpath[:-1]:
             node = node[k]
-        node[tpath[-1]] = (St if target == 's' else P)({'_schema': ov, 'inc': 1})
+        node[tpath[-1]] = (St if target == 's' else P)({'_schema': ov, 'inc': 1, 'shared': cfg.get('shared')})
     found = {}
 
     def walk(d, p=()):
